@@ -6,6 +6,17 @@
 
 use std::alloc::{GlobalAlloc, Layout, System};
 use std::cell::Cell;
+use std::sync::atomic::{AtomicBool, Ordering};
+
+/// Drive the wide host-side API surface (conversion table, factory rebuild) on every delivery?
+/// On for C18 (whose verdict it feeds), off elsewhere to keep the search fast.
+pub static FULL_SURFACE: AtomicBool = AtomicBool::new(false);
+pub fn full_surface() -> bool {
+    FULL_SURFACE.load(Ordering::Relaxed)
+}
+pub fn set_full_surface(on: bool) {
+    FULL_SURFACE.store(on, Ordering::Relaxed);
+}
 
 pub const N_LABELS: usize = 40;
 
@@ -62,7 +73,6 @@ pub enum L {
     scanner_reset,
     ingest_u7_try_from,
     ingest_from_bytes,
-    to_structured,
     to_other_from_other,
     short_msg_accessors,
     cc14_new,
@@ -92,7 +102,6 @@ pub const LABEL_NAMES: [&str; L::_count as usize] = [
     "scanner::reset",
     "U7::try_from(u8)",
     "RawShortMessage::from_bytes",
-    "ShortMessage::to_structured",
     "to_other/from_other",
     "ShortMessage accessors (type, channel, controller_number, control_value, to_bytes, ...)",
     "ControlChange14BitMessage::new",
